@@ -1,16 +1,3 @@
-// Package c16: only the entitled producer's block is accepted.
-//
-// Exhaustive bounded enumeration over four consensus plugins, each built by its
-// public constructor over a stub LedgerRely / network / contract manager and
-// asked through consensus.NewPluggableConsensus (the object the miner calls):
-//
-//	tdpos.go   slot schedule (structure) and CheckMinerMatch (acceptance), every ms
-//	xpoa.go    the same for the XPoA schedule
-//	single.go  proposer x signature x public-key combinations
-//	pow.go     compact target codec, IsProofed, CheckMinerMatch over stub chains
-//
-// Nothing is sampled: every domain is an explicit finite list iterated in index
-// order; goroutines only partition the list.
 package c16
 
 import (
@@ -275,6 +262,9 @@ func (o *outcome) bad(key, summary string, cs map[string]interface{}, expected, 
 		}
 	}
 	o.counts["viol:"+key]++
+	if cs != nil {
+		cs["key"] = key // lets Replay report the same classification first
+	}
 	o.viol = append(o.viol, core.Violation{Key: key, Summary: summary, Case: cs, Expected: expected, Observed: observed})
 }
 
@@ -341,7 +331,8 @@ func run(tier core.Tier) *core.Report {
 		"everything is rejected or everything accepted yields a small number")
 	rep.Assume("stub LedgerRely serves a linear chain of real BlockAgents and one contract-storage map for every snapshot; the real ledger is not involved")
 	rep.Assume("TDPoS/XPoA are run without bft_config: the chained-BFT justify check of CheckMinerMatch (property C14) is not exercised here")
-	rep.Assume("TDPoS/XPoA validator set is the configured initial set (resolved through the young-chain path and through the snapshot path with empty contract storage); elected / edited sets are not enumerated")
+	rep.Assume("TDPoS validator set is the configured initial set (resolved by height on a young chain, through the term / snapshot lookups on a grown chain with no vote records); elected sets are not enumerated. XPoA: the initial set and one set edited through the contract record (reverse order)")
+	rep.Assume("a block's height is what the block claims (the header hash does not cover it and Ledger.ConfirmBlock overwrites it after CheckMinerMatch); the reference takes the true height = parent height + 1. Claimed heights are enumerated for PoW (true, 1) and XPoA (true, 2), not for TDPoS")
 	rep.Assume("TDPoS: before the configured init time no term exists, so nobody is entitled there; XPoA has no origin, for timestamps outside the enumerated rounds (negative, extreme) the code's own schedule triple is taken as naming the entitled validator and only accept-implies-entitled, at most one producer and no panic are judged")
 	rep.Assume("PoW covers the Bitcoin-style mode (defaultTarget > 256); the legacy leading-zero-bits mode is not enumerated")
 	rep.Assume("PoW expectedPeriod is taken in seconds, as refreshDifficulty divides nanosecond timestamps by 1e9 before comparing")
@@ -350,6 +341,7 @@ func run(tier core.Tier) *core.Report {
 
 type caseHdr struct {
 	Part string `json:"part"`
+	Key  string `json:"key"`
 }
 
 func replay(c json.RawMessage) (bool, string, error) {
@@ -381,6 +373,11 @@ func replay(c json.RawMessage) (bool, string, error) {
 	}
 	if len(o.viol) > 0 {
 		v := o.viol[0]
+		for _, x := range o.viol {
+			if x.Key == h.Key {
+				v = x
+			}
+		}
 		return true, fmt.Sprintf("%s: %s (expected: %s; observed: %s)", v.Key, v.Summary, v.Expected, v.Observed), nil
 	}
 	return false, "case replayed without violation", nil
